@@ -7,6 +7,7 @@ import (
 	"fmt"
 	"math/big"
 	"sort"
+	"strings"
 	"time"
 
 	"github.com/dominant-strategies/go-quai/common"
@@ -393,9 +394,9 @@ func (p *StateProxy) RevertToSnapshot(id int) {
 	if !p.DigestOn {
 		return
 	}
-	d, detail := p.stateDigest()
-	if d != r.digest {
-		p.Mismatches = append(p.Mismatches, DigestMismatch{SnapID: id, TopLevel: r == p.order[0], Phase: "state", Diff: diffDetail(r.detail, detail, "state:")})
+	_, detail := p.stateDigest()
+	if diff := diffDetail(r.detail, detail, "state:"); len(diff) > 0 {
+		p.Mismatches = append(p.Mismatches, DigestMismatch{SnapID: id, TopLevel: r == p.order[0], Phase: "state", Diff: diff})
 	}
 	// The EVM truncates its ETX cache and restores its lockup bookkeeping right
 	// after this call returns; check those at the next observable point.
@@ -425,9 +426,41 @@ func diffDetail(a, b map[string]string, prefix string) []string {
 	for k := range b {
 		keys[k] = true
 	}
+	// accounts the digest did not know at snapshot time (first touched inside the
+	// frame): after the revert they must not exist; their other fields are not comparable
+	addrOf := func(k string) string {
+		if !strings.HasPrefix(k, "state:0x") {
+			return ""
+		}
+		rest := k[len("state:"):]
+		if i := strings.IndexByte(rest, ':'); i > 0 {
+			return rest[:i]
+		}
+		return ""
+	}
+	knownAtSnap := map[string]bool{}
+	for k := range a {
+		if ad := addrOf(k); ad != "" {
+			knownAtSnap[ad] = true
+		}
+	}
 	for k := range keys {
 		if len(k) < len(prefix) || k[:len(prefix)] != prefix {
 			continue
+		}
+		if ad := addrOf(k); ad != "" && !knownAtSnap[ad] {
+			if strings.HasSuffix(k, ":exist") && b[k] != "false" {
+				out = append(out, fmt.Sprintf("%s: account first touched inside the frame still exists after the revert (%q)", k, b[k]))
+			}
+			continue
+		}
+		if strings.HasPrefix(k, "state:al:") {
+			if _, ok := a[k]; !ok {
+				if b[k] != "false" {
+					out = append(out, fmt.Sprintf("%s: address first seen inside the frame is still in the access list after the revert", k))
+				}
+				continue
+			}
 		}
 		if a[k] != b[k] {
 			out = append(out, fmt.Sprintf("%s: at-snapshot=%q after-revert=%q", k, a[k], b[k]))
